@@ -249,17 +249,20 @@ class Model:
             except SyntaxError as e:
                 raise AnalysisError(f"{path} does not parse: {e}") from e
         # behaviour-preserving canonicalisation of the model's own copy (see sa/normalize.py)
-        from .normalize import propagate_new_aliases, nested_defs_to_lambdas, lazy_pipelines, inline_new_temps, literals_right, aliases_to_captures, annotate_constructor_calls, loops_to_comprehensions, positional_calls, closed_class_names, isinstance_to_match, normalize_package
+        from .normalize import nest_operation_patterns, append_loops_to_extend, sequence_match_to_if, propagate_new_aliases, nested_defs_to_lambdas, lazy_pipelines, inline_new_temps, literals_right, aliases_to_captures, annotate_constructor_calls, loops_to_comprehensions, positional_calls, closed_class_names, isinstance_to_match, normalize_package
 
         closed = closed_class_names(trees)
         self.inlined = normalize_package(trees)
         self.dispatches_converted = 0
         for rel, tree in trees.items():
+            self.inlined += sequence_match_to_if(tree)
             self.inlined += inline_new_temps(rel, tree)
             self.dispatches_converted += isinstance_to_match(tree, closed)
             self.inlined += aliases_to_captures(tree)
             self.inlined += propagate_new_aliases(rel, tree)
+            self.inlined += nest_operation_patterns(tree)
             self.inlined += loops_to_comprehensions(tree)
+            self.inlined += append_loops_to_extend(tree)
             self.inlined += literals_right(tree)
             self.inlined += lazy_pipelines(tree)
             self.inlined += nested_defs_to_lambdas(tree)
